@@ -4,21 +4,15 @@ import "time"
 
 // placeholders until the SCHED and CLI engines are in place
 
-type Schedule struct{}
 
-func (s *Schedule) summary() any { return nil }
 
 type CLIStep struct{}
 
 func (s CLIStep) summary() any { return nil }
 
-func genSched(seed uint64, prop, tier, mode string) *Plan   { die(2, "sched engine not built yet"); return nil }
-func runSched(p *Plan, keepLog bool, mode string) *RunResult { die(2, "sched engine not built yet"); return nil }
 func genCLI(seed uint64, prop, tier, mode string) *Plan     { die(2, "cli engine not built yet"); return nil }
 func runCLI(p *Plan, keepLog bool) *RunResult               { die(2, "cli engine not built yet"); return nil }
 func cliStubMain(args []string)                             {}
 func selftestDeterminism(args []string)                     {}
-func crashHandlerFor(b batchSpec) crashHandler { return nil }
-func minimiseSched(p *Plan, test func(*Plan) bool, deadline time.Time) *Plan { return nil }
 func minimiseCLI(p *Plan, test func(*Plan) bool, deadline time.Time) *Plan   { return nil }
 
